@@ -129,3 +129,62 @@ pub fn iso2_poses() -> Vec<Iso2> {
 pub fn ulps(v: f64) -> [f64; 3] {
     [v, v.next_up(), v.next_down()]
 }
+
+/// Structured large polylines (all QBVH occupancies and depths): family x number of edges
+pub const LARGE_FAMILIES: [&str; 7] = ["circle", "zigzag", "spiral", "comb", "nested", "coincident", "longthin"];
+pub const LARGE_SIZES: [usize; 15] = [5, 6, 7, 8, 9, 12, 13, 16, 17, 33, 64, 65, 257, 1000, 5000];
+
+pub fn large_polyline(family: &str, edges: usize) -> Vec<Point2> {
+    let n = edges + 1;
+    let f = |i: usize| i as f64 / edges as f64;
+    (0..n)
+        .map(|i| {
+            let t = f(i);
+            match family {
+                "circle" => {
+                    let a = t * std::f64::consts::TAU * 0.95;
+                    Point2::new(4.0 * a.cos(), 4.0 * a.sin())
+                }
+                "zigzag" => Point2::new(8.0 * t - 4.0, if i % 2 == 0 { -1.0 } else { 1.0 + (i % 3) as f64 / 3.0 }),
+                "spiral" => {
+                    let a = t * std::f64::consts::TAU * 3.0;
+                    let r = 0.5 + 3.5 * t;
+                    Point2::new(r * a.cos(), r * a.sin())
+                }
+                "comb" => {
+                    // teeth: up, across, down, across
+                    let k = i / 4;
+                    let x = 8.0 * (k as f64 * 2.0 + if i % 4 >= 2 { 1.0 } else { 0.0 }) / (edges as f64 / 2.0 + 1.0) - 4.0;
+                    let y = if i % 4 == 1 || i % 4 == 2 { 3.0 } else { -3.0 };
+                    Point2::new(x, y)
+                }
+                "nested" => {
+                    // two turns, the second just inside the first
+                    let a = t * std::f64::consts::TAU * 2.0;
+                    let r = if t < 0.5 { 4.0 } else { 3.9 };
+                    Point2::new(r * a.cos(), r * a.sin())
+                }
+                "coincident" => {
+                    // out along a line and back 1e-3 above it
+                    if t <= 0.5 {
+                        Point2::new(-4.0 + 16.0 * t, 0.0)
+                    } else {
+                        Point2::new(4.0 - 16.0 * (t - 0.5), 1e-3)
+                    }
+                }
+                _ => {
+                    // long thin rectangle-like open chain
+                    let per = 2.0 * (1000.0 + 0.01);
+                    let s = t * per * 0.999;
+                    if s < 1000.0 {
+                        Point2::new(s - 500.0, 0.0)
+                    } else if s < 1000.01 {
+                        Point2::new(500.0, s - 1000.0)
+                    } else {
+                        Point2::new(500.0 - (s - 1000.01), 0.01)
+                    }
+                }
+            }
+        })
+        .collect()
+}
